@@ -136,7 +136,7 @@ fn remove_ops(plan: &Plan, drop: &BTreeSet<u32>) -> Plan {
     for inc in p.incarnations.iter_mut() {
         for ph in inc.phases.iter_mut() {
             for th in ph.threads.iter_mut() {
-                th.retain(|o| !drop.contains(&o.id) || matches!(o.kind, OpKind::Open { .. }));
+                th.retain(|o| !drop.contains(&o.id) || matches!(o.kind, OpKind::Open { .. } | OpKind::Close { .. }));
             }
         }
     }
@@ -166,7 +166,7 @@ fn minimise(sc: &dyn Scenario, env: &Env, plan: &Plan, rule: &str, budget: usize
         let ids: Vec<u32> = best
             .incarnations
             .iter()
-            .flat_map(|i| i.phases.iter().flat_map(|p| p.threads.iter().flat_map(|t| t.iter().filter(|o| !matches!(o.kind, OpKind::Open { .. })).map(|o| o.id))))
+            .flat_map(|i| i.phases.iter().flat_map(|p| p.threads.iter().flat_map(|t| t.iter().filter(|o| !matches!(o.kind, OpKind::Open { .. } | OpKind::Close { .. })).map(|o| o.id))))
             .collect();
         let mut progress = false;
         let mut start = 0;
@@ -202,6 +202,7 @@ struct Agg {
     harness_errors: Vec<String>,
     nondeterminism: Vec<u64>,
     rechecked: u64,
+    slowest: (u64, u64, u64),
 }
 
 fn run_check(id: &str, tier: &str) -> i32 {
@@ -240,6 +241,7 @@ fn run_check(id: &str, tier: &str) -> i32 {
         harness_errors: vec![],
         nondeterminism: vec![],
         rechecked: 0,
+        slowest: (0, 0, 0),
     });
     let idh = rng::fnv64(id.as_bytes());
     std::thread::scope(|s| {
@@ -253,7 +255,9 @@ fn run_check(id: &str, tier: &str) -> i32 {
                     break;
                 }
                 let seed_r = rng::mix(rng::mix(base_seed, idh), i);
+                let t_run = Instant::now();
                 let out = sc.run_one(seed_r, &env);
+                let run_ms = t_run.elapsed().as_millis() as u64;
                 let mut nondet = false;
                 let mut rechecked = 0;
                 if i % 100 == 7 {
@@ -265,6 +269,9 @@ fn run_check(id: &str, tier: &str) -> i32 {
                 }
                 let mut a = agg.lock().unwrap();
                 a.runs += 1;
+                if run_ms > a.slowest.0 {
+                    a.slowest = (run_ms, seed_r, i);
+                }
                 a.rechecked += rechecked;
                 a.executions += out.executions;
                 a.keys.extend(out.keys.iter().copied());
@@ -402,6 +409,10 @@ fn run_check(id: &str, tier: &str) -> i32 {
         a.harness_errors.len(),
         a.nondeterminism.len()
     );
+    println!("wsim: slowest run {} ms (run index {}, seed_r {})", a.slowest.0, a.slowest.2, a.slowest.1);
+    for e in a.harness_errors.iter().take(3) {
+        println!("harness-error: {}", e.chars().take(400).collect::<String>());
+    }
     if !a.nondeterminism.is_empty() {
         eprintln!("wsim: NONDETERMINISM for seeds {:?}", &a.nondeterminism[..a.nondeterminism.len().min(5)]);
         return 2;
@@ -468,19 +479,20 @@ fn main() {
         Some("child") => {
             let plan = args.get(2).expect("plan");
             let inc: usize = args.get(3).and_then(|s| s.parse().ok()).expect("inc");
-            child::run_child(plan, inc)
+            let clock: Option<u64> = args.get(4).and_then(|s| s.parse().ok());
+            child::run_child(plan, inc, clock)
         }
         Some("run") => run_check(args.get(2).map(|s| s.as_str()).unwrap_or(""), args.get(3).map(|s| s.as_str()).unwrap_or("quick")),
         Some("replay") => replay(args.get(2).map(|s| s.as_str()).unwrap_or("")),
         Some("plan") => {
             let id = args.get(2).cloned().unwrap_or_default();
             let seed: u64 = args.get(3).and_then(|s| s.parse().ok()).unwrap_or(1);
-            match id.as_str() {
-                _ => {
-                    let o = gen::SeqOpts::base("C01", "seq");
-                    println!("{}", serde_json::to_string_pretty(&gen::gen_seq(seed, &o)).unwrap());
+            match props::plan_for(&id, seed) {
+                Some(p) => {
+                    println!("{}", serde_json::to_string(&p).unwrap());
                     0
                 }
+                None => 2,
             }
         }
         Some("exec") => {
